@@ -222,6 +222,28 @@ pub fn run(thorough: bool) -> Vec<Part> {
             part.violations.push(util::Violation { signature: "status-code".into(), detail: format!("{:?}.raw() = {:?}, expected {:?} (and distinct)", c, util::show(c.raw()), util::show(*want)), replay: json!({"engine": "none"}) });
         }
     }
+    // every status code, serialized through a Response under both versions
+    {
+        use crate::spec::response::{read_one, ReadResult};
+        let mut seen_lines = std::collections::BTreeSet::new();
+        for v in [Version::Http10, Version::Http11] {
+            for (c, want) in &codes {
+                rt += 1;
+                let mut b = vec![];
+                micro_http::Response::new(v, *c).write_all(&mut b).unwrap();
+                let want_code: u16 = std::str::from_utf8(*want).unwrap().parse().unwrap();
+                match read_one(&b) {
+                    ReadResult::Complete(p) if p.code == want_code && p.version.as_bytes() == v.raw() => {
+                        seen_lines.insert((p.version.clone(), p.code));
+                    }
+                    other => part.violations.push(util::Violation { signature: "status-code".into(), detail: format!("Response::new({:?}, {:?}) serializes as {:?}, expected code {}", v, c, other, want_code), replay: json!({"engine": "none"}) }),
+                }
+            }
+        }
+        if part.violations.is_empty() && seen_lines.len() != 22 {
+            part.violations.push(util::Violation { signature: "status-code".into(), detail: "serialized status lines are not pairwise distinct".into(), replay: json!({"engine": "none"}) });
+        }
+    }
     part.set("round_trip_and_status_checks", json!(rt));
     // (4) URIs
     let syms: Vec<&str> = vec!["h", "t", "p", ":", "/", "a", ".", "%", "\u{e9}"];
